@@ -129,8 +129,16 @@ func (g *gen) editLine(kind string) string {
 	r := g.r
 	id := g.pickID()
 	sets, ok := g.setsOf[id]
-	if !ok || r.IntN(4) == 0 {
+	switch x := r.IntN(12); {
+	case !ok || x < 2:
 		sets = hx.Pick(r, silx.Catalog)
+	case x < 6:
+		// the stored matcher sets with one component changed (operator only, value only, name only,
+		// a matcher / a set added, dropped or moved): never an in-place update
+		if m := g.stored(id); m != nil {
+			sets = m.Sets
+		}
+		sets, _ = silx.VaryAny(r, sets)
 	}
 	if kind == "post" {
 		sets = sets[:1]
